@@ -24,7 +24,7 @@ import (
 type hxOut = hx.Out
 type hxRng = hx.Rng
 
-var mode = flag.String("mode", "model", "model|e2e|routing")
+var mode = flag.String("mode", "model", "model|e2e|routing|merge|wsend")
 
 const tickLinger = 15 * time.Millisecond
 
@@ -276,7 +276,107 @@ func sortSlash(keys []string) {
 	})
 }
 
-// ---------------------------------------------------------------- merge / list cases
+// ---------------------------------------------------------------- merge / list / scan cases
+
+// streamEndCodes: how a per-shard stream can end besides io.EOF: opaque errors (1..50) and every kind of gRPC status
+// (1000 + code): Canceled, Unknown, DeadlineExceeded, Internal, Unavailable, and the oxia codes 100..109
+var statusEnds = []int{1001, 1001, 1002, 1004, 1013, 1014, 1014, 1100, 1102, 1103, 1104, 1106, 1108}
+
+func streamEnd(r *hx.Rng) int {
+	if r.Chance(55) {
+		return hx.Pick(r, statusEnds)
+	}
+	return 1 + r.Intn(50)
+}
+
+// stress alphabet for the comparer: depth differences, bytes just below and above '/', long segments
+var slashAlphabet = []byte{'a', 'a', 'b', 'c', '/', '/', '/', '-', '.', ' ', '0', '!', '~', 0x01, 0xff}
+
+func genSlashKey(r *hx.Rng) string {
+	n := 1 + r.Intn(7)
+	if r.Chance(10) {
+		n = 8 + r.Intn(12) // long segments
+	}
+	b := make([]byte, n)
+	for i := range b {
+		b[i] = hx.Pick(r, slashAlphabet)
+	}
+	return string(b)
+}
+
+// genScanCase: 2..5 shards (1..5 when lone), sorted per-shard streams of globally distinct keys from the stress
+// alphabet; errors (incl. gRPC statuses) end some streams, at most one stream is an error from the start
+func genScanCase(r *hx.Rng, withErrors bool) [][]mitem {
+	k := 2 + r.Intn(4)
+	total := 2 + r.Intn(28)
+	seen := map[string]bool{}
+	per := make([][]string, k)
+	// now and then the textbook shape: P < R < N in slash order with N before R bytewise, P and N on one shard
+	if r.Chance(30) {
+		p, rr, n := "a/a", "a/c", "a-b/c"
+		if r.Bool() {
+			p, rr, n = "a/a", "a/bc", "a/b/c"
+		}
+		i := r.Intn(k)
+		j := (i + 1 + r.Intn(k-1)) % k
+		per[i] = append(per[i], p, n)
+		per[j] = append(per[j], rr)
+		seen[p], seen[rr], seen[n] = true, true, true
+	}
+	for c := 0; c < total; c++ {
+		key := genSlashKey(r)
+		if seen[key] {
+			continue
+		}
+		seen[key] = true
+		i := r.Intn(k)
+		per[i] = append(per[i], key)
+	}
+	chans := make([][]mitem, k)
+	payload := 0
+	startsWithErr := false
+	for i := range per {
+		sortSlash(per[i])
+		for _, key := range per[i] {
+			payload++
+			chans[i] = append(chans[i], mitem{key: key, payload: payload})
+		}
+		if withErrors && r.Chance(45) {
+			cut := r.Intn(len(chans[i]) + 1)
+			if cut == 0 && startsWithErr {
+				cut = len(chans[i])
+				if cut == 0 {
+					continue
+				}
+			}
+			if cut == 0 {
+				startsWithErr = true
+			}
+			chans[i] = append(chans[i][:cut:cut], mitem{isErr: true, payload: streamEnd(r)})
+		}
+	}
+	return chans
+}
+
+func doScanCase(o *hx.Out, chans [][]mitem) {
+	in := fmtChans(chans)
+	out, timedOut := runScan(chans)
+	res := fmtItems(canonRuns(out))
+	if timedOut {
+		res = "TIMEOUT," + res
+	}
+	o.Case("scan", in, res, in)
+	o.Count(fmt.Sprintf("scan:shards=%d", len(chans)))
+	if timedOut {
+		o.Violation("fanout:no-progress", "scan "+in+" => "+res)
+		return
+	}
+	nv := o.NViol
+	checkFanoutSpec(o, chans, out, true, "scan "+in, res)
+	if o.NViol == nv {
+		checkMergeSpec(o, chans, out, "scan "+in, res)
+	}
+}
 
 func doMergeCase(o *hx.Out, r *hx.Rng, chans [][]mitem) {
 	in := fmtChans(chans)
@@ -367,8 +467,14 @@ func doListCase(o *hx.Out, chans [][]mitem) {
 	for _, ch := range chans {
 		want = append(want, ch...)
 	}
-	if timedOut || res != fmtItems(sortItems(want)) {
-		o.Violation("list:not-the-union", "list "+in+" => "+res)
+	if timedOut {
+		o.Violation("fanout:no-progress", "list "+in+" => "+res)
+		return
+	}
+	nv := o.NViol
+	checkFanoutSpec(o, chans, out, false, "list "+in, res)
+	if o.NViol == nv && res != fmtItems(sortItems(want)) {
+		o.Violation("fanout:result-not-union", "list "+in+" => "+res)
 	}
 }
 
@@ -380,8 +486,8 @@ func genListCase(r *hx.Rng) [][]mitem {
 		for j := 0; j < n; j++ {
 			chans[i] = append(chans[i], mitem{key: genKey(r)})
 		}
-		if r.Chance(25) {
-			chans[i] = append(chans[i], mitem{isErr: true, payload: 1 + r.Intn(50)})
+		if r.Chance(30) {
+			chans[i] = append(chans[i], mitem{isErr: true, payload: streamEnd(r)})
 		}
 	}
 	return chans
@@ -530,6 +636,10 @@ func replayLine(o *hx.Out, r *hx.Rng, line string) {
 		doMergeCase(o, r, parseChans(t[2]))
 	case "list":
 		doListCase(o, parseChans(t[2]))
+	case "scan":
+		doScanCase(o, parseChans(t[2]))
+	case "wsend":
+		doWsendCase(o, parseWsend(t[2]))
 	case "listc":
 		doListcCase(o, parseChans(t[3]), splitList(t[4]))
 	case "mget":
@@ -552,6 +662,62 @@ func main() {
 	defer o.Close()
 	r := hx.NewRng(f.Seed)
 
+	if *mode == "merge" {
+		// C11 leg: multi-shard merge of sorted per-shard streams, keys from the comparer-stressing alphabet
+		sigOrder, sigLost, sigDup = "scan:merged-out-of-slash-order", "scan:merge-lost-or-duplicated", "scan:merge-lost-or-duplicated"
+		replay := hx.CorpusLines(f.Corpus)
+		if f.Replay != "" {
+			replay = hx.ReadLines(f.Replay)
+		}
+		for _, line := range replay {
+			if strings.HasPrefix(line, "merge ") || strings.HasPrefix(line, "scan ") {
+				replayLine(o, r.Fork(), line)
+			}
+		}
+		if f.Replay != "" {
+			return
+		}
+		for _, l := range []string{
+			"merge 0 k612f61:1,k612d622f63:2|k612f63:3", // a/a, a-b/c | a/c
+			"scan 0 k612f61:1,k612d622f63:2|k612f63:3",
+			"scan 0 k612f61:1,k612f622f63:2|k612f6263:3", // a/a, a/b/c | a/bc
+		} {
+			replayLine(o, r.Fork(), l)
+		}
+		for i := 0; i < f.N; i++ {
+			chans := genScanCase(r, i%5 == 4)
+			doMergeCase(o, r, chans)
+			doScanCase(o, chans)
+		}
+		return
+	}
+	if *mode == "wsend" {
+		// C02 leg: a write that is on the wire is never sent again
+		replay := hx.CorpusLines(f.Corpus)
+		if f.Replay != "" {
+			replay = hx.ReadLines(f.Replay)
+		}
+		for _, line := range replay {
+			if strings.HasPrefix(line, "wsend ") {
+				replayLine(o, r.Fork(), line)
+			}
+		}
+		if f.Replay != "" {
+			return
+		}
+		for _, l := range []string{
+			"wsend 0 a1;a2;f14+a9;a3",        // answered twice on one stream, then the stream breaks under the third
+			"wsend 0 f104+a9;f102+a8;f13+a7", // AlreadyClosed / InvalidStatus / Internal while in flight
+			"wsend 0 c106+s14+a7;c13",        // never sent: retried; not retriable: reported
+		} {
+			replayLine(o, r.Fork(), l)
+		}
+		budget := 4 + f.N/6
+		for i := 0; i < f.N; i++ {
+			doWsendCase(o, genWsendCase(r, &budget))
+		}
+		return
+	}
 	if *mode == "routing" {
 		if f.Replay != "" {
 			return
@@ -603,6 +769,12 @@ func main() {
 		"stream 0 1 s1:1,s2:1,s3:1,c2,r10,r20,r30,c1,c999,x",
 		"merge 0 -",
 		"merge 0 E77|E77",
+		"list 0 k61:0,k63:0|k62:0,E1001", // a shard stream that ends with status Canceled after one key
+		"list 0 E1014|k62:0|E1001",
+		"scan 0 k61:1,k63:2|k62:3,E1001",
+		"scan 0 k61:1,k63:2|E1001",
+		"scan 0 k612f61:1,k612d622f63:2|k612f63:3",
+		"wsend 0 a1;f14+a9;c106+a3",
 		"listc 0 1 E5|k63:0,k64:0 F0,C,G1",
 		"listc 0 1 k61:0|k63:0,k64:0|k65:0 F1,F0,C,G2,G1",
 		"listc 0 1 -|- -",
@@ -621,6 +793,9 @@ func main() {
 	nextID := 0
 	retries := 10 + f.N/150 // every retry waits for the batch's backoff (100 ms and growing)
 	for i := 0; i < f.N; i++ {
+		if o.NViol >= 30 {
+			break // the code under test is broken in many cases: report what was found instead of waiting on the rest
+		}
 		cfg, script, events := genBatchCase(r, &nextID, &retries)
 		if nextID > 90000 {
 			nextID = 0
@@ -635,8 +810,15 @@ func main() {
 		if i%3 == 0 {
 			doListCase(o, genListCase(r))
 		}
+		if i%2 == 0 {
+			doScanCase(o, genScanCase(r, i%4 == 0))
+		}
 		if i%4 == 0 {
 			doMgetAllOrders(o, r)
+		}
+		if i%10 == 0 {
+			wb := 0 // no retriable connection failures here: each costs the batch's backoff
+			doWsendCase(o, genWsendCase(r, &wb))
 		}
 		if i%25 == 0 { // each of these runs in a child process and waits 60 ms after the cancellation
 			chans, ev := genListcCase(r)
